@@ -2704,7 +2704,8 @@ func (c *streamableClientConn) processStream(ctx context.Context, requestSummary
 //
 // If connection fails, connectSSE retries with an exponential backoff
 // strategy. It returns a new, valid HTTP response if successful, or an error
-// if all retries are exhausted.
+// if all retries are exhausted. When reconnecting, a response with a transient
+// HTTP status (see [isTransientHTTPStatus]) counts as a failed attempt.
 //
 // reconnectDelay is the delay set by the server using the SSE retry field, or
 // 0.
@@ -2751,6 +2752,15 @@ func (c *streamableClientConn) connectSSE(ctx context.Context, lastEventID strin
 			}
 			req.Header.Set("Accept", "text/event-stream")
 			resp, err := c.client.Do(req)
+			if err == nil && !initial && isTransientHTTPStatus(resp.StatusCode) {
+				// A transient server error (e.g. 503) while reconnecting says nothing
+				// about the stream or the session, so it should not break the
+				// connection: treat it like a failure to connect. (The status of the
+				// initial request is interpreted by the caller.)
+				io.Copy(io.Discard, resp.Body)
+				resp.Body.Close()
+				err = errors.New(http.StatusText(resp.StatusCode))
+			}
 			if err != nil {
 				finalErr = err // Store the error and try again.
 				delay = calculateReconnectDelay(attempt + 1)
